@@ -12,6 +12,20 @@
 
 // arbitrary NUL-terminated text in an exactly sized object: terminates (unwind bound), reads nothing beyond the
 // terminator (engine bounds), failure reports a position inside the text
+
+// length of line number `line` (1-based) of buf[0..n): \n, \r, or \r\n end a line (the \r of a \r\n pair belongs to the line)
+static unsigned vf_lineLength(const char* buf, unsigned n, unsigned line)
+{
+  unsigned cur = 1, len = 0;
+  for(unsigned i = 0; i < n; ++i)
+  {
+    bool brk = (buf[i] == '\n') | ((buf[i] == '\r') & (buf[i + 1] != '\n'));
+    if(brk) { if(cur == line) return len; ++cur; len = 0; }
+    else ++len;
+  }
+  return len;
+}
+
 extern "C" int parse_safety()
 {
   unsigned n = vf_pick(VF_LEN + 1);
@@ -29,6 +43,7 @@ extern "C" int parse_safety()
       for(unsigned i = 0; i < n; ++i) lines += (buf[i] == '\n') | ((buf[i] == '\r') & (buf[i + 1] != '\n'));
       vf_assert(line >= 1 && (unsigned)line <= lines, "error line lies inside the text");
       vf_assert(col >= 1 && (unsigned)col <= n + 1, "error column lies inside the text");
+      vf_assert((unsigned)col <= vf_lineLength(buf, n, (unsigned)line) + 1, "error column lies inside its line");
     }
   }
   vf_free(buf);
